@@ -78,9 +78,11 @@ type ModLoc struct {
 type CallGhost struct {
 	Callee  string // text as written e.g. mp.recorder.WriteFrame
 	Ordinal int
-	Kind    string // "ghost" (argument) | "bind" (capture result)
+	Kind    string // "ghost" (argument) | "bind" (capture result) | "assert"
 	Name    string
 	Val     Expr
+	Tags    []string
+	Text    string
 }
 
 type FuncContract struct {
@@ -102,6 +104,7 @@ type FuncContract struct {
 	LoopInv    map[int][]Clause
 	LoopMod    map[int][]ModLoc
 	CallGhosts []CallGhost
+	GhostParams []string
 	Mode       string // "" strict | "permissive" | "trusted"
 	Allocates  bool
 	File       string
@@ -196,9 +199,9 @@ func lex(s string) ([]tok, error) {
 			for i < len(s) && s[i] != '\n' {
 				i++
 			}
-		case unicode.IsLetter(rune(c)) || c == '_':
+		case unicode.IsLetter(rune(c)) || c == '_' || c == '$':
 			j := i
-			for j < len(s) && (unicode.IsLetter(rune(s[j])) || unicode.IsDigit(rune(s[j])) || s[j] == '_') {
+			for j < len(s) && (unicode.IsLetter(rune(s[j])) || unicode.IsDigit(rune(s[j])) || s[j] == '_' || s[j] == '$') {
 				j++
 			}
 			out = append(out, tok{"ident", s[i:j], i})
@@ -559,7 +562,7 @@ func (ps *parser) parsePrimary() Expr {
 var declKeywords = map[string]bool{"ghost": true, "pure": true, "pred": true, "func": true, "axiom": true,
 	"package": true, "import": true, "abstract": true, "iface": true, "functype": true, "fieldfunc": true}
 var clauseKeywords = map[string]bool{"requires": true, "ensures": true, "modifies": true, "ghost_entry": true,
-	"ghost_exit": true, "loop": true, "call": true, "mode": true, "allocates": true, "tags": true}
+	"ghost_exit": true, "loop": true, "call": true, "mode": true, "allocates": true, "tags": true, "ghostparams": true}
 
 type rawLine struct {
 	text string
@@ -705,6 +708,8 @@ func parseClause(fc *FuncContract, w, rest string, en rawLine, path string) erro
 	case "tags":
 		tags, _ := parseTags("[" + rest + "]")
 		fc.Tags = append(fc.Tags, tags...)
+	case "ghostparams":
+		fc.GhostParams = append(fc.GhostParams, strings.Fields(strings.ReplaceAll(rest, ",", " "))...)
 	case "mode":
 		fc.Mode = strings.TrimSpace(rest)
 	case "allocates":
@@ -799,6 +804,14 @@ func parseClause(fc *FuncContract, w, rest string, en rawLine, path string) erro
 			fmt.Sscanf(ck[1], "%d", &cg.Ordinal)
 		}
 		switch parts[1] {
+		case "assert":
+			body := strings.TrimSpace(rest[strings.Index(rest, "assert")+6:])
+			tags, b2 := parseTags(body)
+			e, err := parseExpr(b2)
+			if err != nil {
+				return err
+			}
+			cg.Val, cg.Tags, cg.Text = e, tags, b2
 		case "bind":
 			cg.Name = parts[2]
 		case "ghost":
@@ -813,7 +826,7 @@ func parseClause(fc *FuncContract, w, rest string, en rawLine, path string) erro
 			}
 			cg.Val = e
 		default:
-			return fmt.Errorf("call kind must be ghost or bind")
+			return fmt.Errorf("call kind must be ghost, bind or assert")
 		}
 		fc.CallGhosts = append(fc.CallGhosts, cg)
 	default:
@@ -882,6 +895,10 @@ func parseModLocs(rest string) ([]ModLoc, error) {
 		_ = ghost
 		if part == "fresh" {
 			out = append(out, ModLoc{Kind: "fresh", Text: part})
+			continue
+		}
+		if strings.HasPrefix(part, "any(") && strings.HasSuffix(part, ")") {
+			out = append(out, ModLoc{Kind: "any", Name: strings.TrimSpace(part[4 : len(part)-1]), Text: part})
 			continue
 		}
 		if strings.HasSuffix(part, ".*") {
